@@ -1,6 +1,6 @@
 (* C18 - Declining changes only the offer list or the clock; truncation counts exactly. *)
 From Coq Require Import List ZArith Bool.
-From JSL Require Import Base.Res SM.Types SM.Util SM.Handler SM.Step SM.Middleware SMP.Decline.
+From JSL Require Import Base.Res SM.Types SM.Util SM.Handler SM.Step SM.Middleware SMP.Decline Gen.Kernels Gen.KernelsEq.
 Import ListNotations.
 Open Scope Z_scope.
 
@@ -43,3 +43,9 @@ Proof. exact counts_init. Qed.
 Theorem C18_inactive_never_counts : forall s, ts_declined_rounds (tspec_decline_last false s) = ts_declined_rounds s.
 Proof. exact inactive_never_counts. Qed.
 Print Assumptions C18_truncated_iff_count.
+
+(* The truncation rule of the model IS the implementation's: regenerated from SubTimeStepper.should_truncate. *)
+Theorem C18_truncation_rule_is_the_code's :
+  forall m, should_truncate m = gen_should_truncate (mw_trunc_active m) (Z.of_nat (mw_noop m)) (Z.of_nat (mw_act m)).
+Proof. exact gen_should_truncate_eq. Qed.
+Print Assumptions C18_truncation_rule_is_the_code's.
